@@ -156,6 +156,86 @@ pub fn families() -> Vec<Box<dyn Family>> {
             },
         ),
         family(
+            "huge_near_identical",
+            "near-identical inputs of 100 000 .. 1 000 000 items (distinct items or alphabet 50; <= 4 point edits; thorough: more cases) x {Myers, Patience}: on such inputs the work must stay near-linear — equal runs of hundreds of thousands of items between two edits",
+            false,
+            1,
+            |cfg| if cfg.tiny { 1 } else { cfg.tier.pick(6, 30) },
+            |idx, cfg, out| {
+                let mut rng = Rng::for_case(cfg.seed, "c19.huge", idx);
+                let n = if cfg.tiny { 20 } else { *rng.pick(&[100_000usize, 300_000, 500_000, 1_000_000]) };
+                let alpha: u32 = if rng.chance(1, 2) { 1_000_000_000 } else { 50 };
+                let a: Vec<u32> = if alpha > 50 { (0..n as u32).collect() } else { (0..n).map(|_| rng.below(50) as u32).collect() };
+                let mut b = a.clone();
+                for _ in 0..1 + rng.below(4) {
+                    let i = rng.below(b.len());
+                    match rng.below(3) {
+                        0 => b[i] = 2_000_000_000 + rng.below(1000) as u32,
+                        1 => {
+                            b.remove(i);
+                        }
+                        _ => b.insert(i, 2_000_000_000 + rng.below(1000) as u32),
+                    }
+                }
+                out.sample(|| format!("N={} M={} alphabet {}", a.len(), b.len(), if alpha > 50 { "distinct".to_string() } else { "50".to_string() }));
+                out.count("huge_near_identical_cases");
+                for alg in [Algorithm::Myers, Algorithm::Patience] {
+                    out.nontrivial(&(alg_name(alg), n, idx));
+                    case(cfg, alg, &a, &b, "huge_near_identical", out);
+                }
+            },
+        ),
+        family(
+            "nested_unique",
+            "nested uniqueness: S = u2 u3 u2 u4 u3 u5 u4 ... (every item occurs twice, interleaved) behind a core that differs between old and new (D = 2..40), L = 100..3000: anchors exist at every nesting level",
+            false,
+            1,
+            |cfg| if cfg.tiny { 1 } else { cfg.tier.pick(24, 120) },
+            |idx, cfg, out| {
+                let mut rng = Rng::for_case(cfg.seed, "c19.nested", idx);
+                let l = if cfg.tiny { 8 } else { *rng.pick(&[100usize, 500, 1000, 3000]) };
+                let mut s: Vec<u32> = vec![2];
+                for k in 3..=l as u32 {
+                    s.push(k);
+                    s.push(k - 1);
+                }
+                let core = 1 + rng.below(20);
+                let mut a: Vec<u32> = (0..core as u32).map(|i| 1_000_000 + i).collect();
+                let mut b: Vec<u32> = (0..core as u32).map(|i| 2_000_000 + i).collect();
+                match rng.below(3) {
+                    0 => {
+                        a.extend_from_slice(&s);
+                        b.extend_from_slice(&s);
+                    }
+                    1 => {
+                        let mut a2 = s.clone();
+                        a2.extend_from_slice(&a);
+                        let mut b2 = s.clone();
+                        b2.extend_from_slice(&b);
+                        a = a2;
+                        b = b2;
+                    }
+                    _ => {
+                        let mid = s.len() / 2;
+                        let mut a2 = s[..mid].to_vec();
+                        a2.extend_from_slice(&a);
+                        a2.extend_from_slice(&s[mid..]);
+                        let mut b2 = s[..mid].to_vec();
+                        b2.extend_from_slice(&b);
+                        b2.extend_from_slice(&s[mid..]);
+                        a = a2;
+                        b = b2;
+                    }
+                }
+                out.sample(|| format!("nested sequence of {} items, differing core of {} items", s.len(), core));
+                out.count("nested_unique_cases");
+                for alg in [Algorithm::Myers, Algorithm::Patience] {
+                    out.nontrivial(&(alg_name(alg), l, core, idx));
+                    case(cfg, alg, &a, &b, "nested_unique", out);
+                }
+            },
+        ),
+        family(
             "small_exh",
             "every ordered pair over {0,1,2} with length <= 5 (thorough <= 6) x {Myers, Patience}: the bound must also hold at the small end",
             true,
